@@ -11,9 +11,11 @@ RULE = ('resize_array on 1-d arrays: 5 pad modes x 2 directions x input lengths 
         'every offset from -2 to |m-n|+2 (legal and illegal) x small-integer contents x pad constants; '
         'a case is non-trivial when the array is not identically zero or the outcome is an error; '
         'distinct by (mode, direction, n, n_out, offset, pad_const, dtype, values)')
-ASSUMPTIONS = ['exact arithmetic: inputs are small integers so every float operation is exact',
+ASSUMPTIONS = ['exact arithmetic: inputs are small integers so every float operation is exact '
+               '(that the Q-executed 1-d model is the restriction of the R model is a theorem: resize1_Q_is_restriction_of_R)',
                'NumPy slicing / broadcasting / overlapping-assignment semantics are trusted as modelled']
-TRUSTED = ['translate/padding.py (Python ast -> Gallina slice arithmetic and guards), fail-closed',
+TRUSTED = ['translate/padding.py (Python ast -> Gallina: slice arithmetic, legality guards, offset validation, '
+           'num_l/num_r tree, new_minpt/new_maxpt, offset_float), fail-closed',
            'C16/Model.v Python-slice semantics and the statement sequence of _apply_padding']
 SHARD_SIZE = 400
 
@@ -23,7 +25,7 @@ DIRK = {'forward': 'Forward', 'adjoint': 'Adjoint'}
 
 
 def translate():
-    return {'Gen/Padding.v': T.translate()}
+    return {'Gen/Padding.v': T.translate(), 'Gen/ResizeDiscr.v': T.translate_discr()}
 
 
 def impl_resize(arr, newshp, off, mode, c, direction):
@@ -37,19 +39,7 @@ def impl_resize(arr, newshp, off, mode, c, direction):
         return 'IOtherErr'
 
 
-def measured_strict():
-    """Does resize_array validate the offset range (proposed fix for finding
-    offset-out-of-range-accepted)?  Measured on the finding's own replay input."""
-    from odl.util.numerics import resize_array
-    try:
-        resize_array([5], (4,), offset=-3)
-        return False
-    except ValueError:
-        return True
-
-
 def cases_1d(rng, tier):
-    strict = measured_strict()
     cs = C.CaseSet('resize1d', ['C16.Syntax', 'Gen.Padding', 'C16.Model', 'C16.Corr'], 'check1', 'case1')
     nmax, mmax = (5, 7) if tier == "quick" else (8, 13)
     for mode, d in itertools.product(MODES, DIRS):
@@ -65,9 +55,9 @@ def cases_1d(rng, tier):
                     c = rng.choice([0, 0, 3])
                 cast = bool(np.can_cast(c, arr.dtype))
                 out = impl_resize(arr, (m,), None if (off == 0 and rng.random() < 0.4) else off, mode, c, d)
-                term = ('{| k_strict := %s; k_m := %s; k_d := %s; k_c := %s; k_cast := %s; k_arr := %s; k_nout := %s; '
+                term = ('{| k_m := %s; k_d := %s; k_c := %s; k_cast := %s; k_arr := %s; k_nout := %s; '
                         'k_off := %s; k_out := %s |}'
-                        % (C.b(strict), T.PMODE[mode], DIRK[d], C.q(c), C.b(cast), C.qs(arr.tolist()), C.nat(m), C.z(off), out))
+                        % (T.PMODE[mode], DIRK[d], C.q(c), C.b(cast), C.qs(arr.tolist()), C.nat(m), C.z(off), out))
                 key = ((mode, d, n, m, off, c, dt.__name__, tuple(arr.tolist()))
                        if (arr.any() or out.startswith('IValueErr')) else None)
                 cs.add(term, {'mode': mode, 'direction': d, 'arr': arr.tolist(), 'dtype': dt.__name__,
@@ -89,9 +79,9 @@ def cases_1d(rng, tier):
             except Exception:
                 outs = ('IOtherErr', 'IOtherErr')
             for part, arr, cc, o in (('re', re, c, outs[0]), ('im', im, 0, outs[1])):
-                term = ('{| k_strict := %s; k_m := %s; k_d := %s; k_c := %s; k_cast := true; k_arr := %s; k_nout := %s; '
+                term = ('{| k_m := %s; k_d := %s; k_c := %s; k_cast := true; k_arr := %s; k_nout := %s; '
                         'k_off := %s; k_out := %s |}'
-                        % (C.b(strict), T.PMODE[mode], DIRK[d], C.q(cc), C.qs(arr.tolist()), C.nat(m), C.z(off), o))
+                        % (T.PMODE[mode], DIRK[d], C.q(cc), C.qs(arr.tolist()), C.nat(m), C.z(off), o))
                 cs.add(term, {'mode': mode, 'direction': d, 'arr': arr.tolist(), 'dtype': 'complex/' + part,
                               'newshp': m, 'offset': off, 'pad_const': cc},
                        (mode, d, n, m, off, cc, 'complex', part, tuple(arr.tolist())) if arr.any() or o == 'IValueErr' else None)
@@ -103,7 +93,6 @@ def _legal_off(rng, n, m):
 
 
 def cases_nd(rng, tier):
-    strict = measured_strict()
     cs = C.CaseSet('resizeNd', ['C16.Syntax', 'Gen.Padding', 'C16.Model', 'C16.ModelNd', 'C16.Corr'],
                    'checkN', 'caseN')
     nper = 40 if tier == "quick" else 300
@@ -142,9 +131,9 @@ def cases_nd(rng, tier):
                 c = 0
             cast = bool(np.can_cast(c, arr.dtype))
             out = impl_resize(arr, tuple(osh), offs, mode, c, d)
-            term = ('{| n_strict := %s; n_m := %s; n_d := %s; n_c := %s; n_cast := %s; n_ishape := %s%%nat; n_arr := %s; '
+            term = ('{| n_m := %s; n_d := %s; n_c := %s; n_cast := %s; n_ishape := %s%%nat; n_arr := %s; '
                     'n_oshape := %s%%nat; n_offs := %s%%Z; n_out := %s |}'
-                    % (C.b(strict), T.PMODE[mode], DIRK[d], C.q(c), C.b(cast), C.nats(ish), C.qs(arr.ravel().tolist()),
+                    % (T.PMODE[mode], DIRK[d], C.q(c), C.b(cast), C.nats(ish), C.qs(arr.ravel().tolist()),
                        C.nats(osh), C.zs(offs), out))
             key = ((mode, d, tuple(ish), tuple(osh), tuple(offs), c, dt.__name__, tuple(arr.ravel().tolist()))
                    if (arr.any() or out.startswith('IValueErr')) else None)
@@ -152,19 +141,6 @@ def cases_nd(rng, tier):
                           'dtype': dt.__name__, 'pad_const': c, 'arr': arr.tolist(),
                           'outcome': out[:10]}, key)
     return cs
-
-
-def measured_fixed():
-    """Which sign convention _resize_discr uses for a restriction with an explicit offset
-    (finding range-restrict-explicit-offset): False = as coded (range left of the domain),
-    True = repaired (range inside the domain)."""
-    import odl
-    X = odl.uniform_discr(0, 1, 10)
-    try:
-        lo = float(odl.ResizingOperator(X, ran_shp=(6,), offset=2).range.min_pt[0])
-    except Exception:
-        return False
-    return abs(lo - 0.2) < 1e-9
 
 
 def measured_adjguard():
@@ -192,7 +168,6 @@ def cases_op(rng, tier):
     import odl
     cs = C.CaseSet('resizing_op', ['C16.Syntax', 'Gen.Padding', 'C16.Model', 'C16.ModelNd', 'C16.ModelOp',
                                    'C16.Corr'], 'checkOp', 'caseOp')
-    fixed = measured_fixed()
     adjguard = measured_adjguard()
     nper = 30 if tier == "quick" else 200
     for mode in MODES:
@@ -243,10 +218,10 @@ def cases_op(rng, tier):
             R = op.range
             doms = C.lst(dom, lambda d: '(%s, %s, %s%%Z, (%s, %s))' % (C.q(d[0]), C.q(d[1]), C.z(d[2]),
                                                                     C.b(d[3][0]), C.b(d[3][1])))
-            term = ('{| o_fixed := %s; o_adjguard := %s; o_m := %s; o_c := %s; o_dom := %s; o_nnew := %s%%Z; o_off := %s; '
+            term = ('{| o_adjguard := %s; o_m := %s; o_c := %s; o_dom := %s; o_nnew := %s%%Z; o_off := %s; '
                     'o_flags := %s; o_rmin := %s; o_rmax := %s; o_rcs := %s; o_offset := %s%%Z; o_islinear := %s; o_axes := %s%%nat; '
                     'o_x := %s; o_fx := %s; o_y := %s; o_ay := %s; o_inv := %s |}'
-                    % (C.b(fixed), C.b(adjguard and not (op.domain.is_uniformly_weighted and op.range.is_uniformly_weighted)),
+                    % (C.b(adjguard and not (op.domain.is_uniformly_weighted and op.range.is_uniformly_weighted)),
                        T.PMODE[mode], C.q(c), doms, C.zs(nnew),
                        C.lst(offs, lambda o: 'None' if o is None else '(Some %s%%Z)' % C.z(o)),
                        C.lst(kw_flags, lambda f: '(%s, %s)' % (C.b(f[0]), C.b(f[1]))),
@@ -744,21 +719,22 @@ def search(rng, broken):
     return None
 
 
-LEVEL_TEXT = ('Proof: for the slice arithmetic and legality guards regenerated from odl/util/numerics.py on every run, '
-              'Coq proves for EVERY input length, output length (growing, shrinking, equal), admissible offset, pad mode '
-              'and all contents that the 1-d resize_array (a) computes exactly the named rule as an index formula '
-              '(constant, periodic wrap, symmetric reflection without edge repeat, order0, order1), (b) rejects padding '
-              'lengths outside the documented limits, (c) has an adjoint direction that is the exact transpose '
-              '(<Rx,y> = <x,R^T y>), (d) crop after extend is the identity; and for the range built by ResizingOperator: '
-              'unchanged cell sides, the interval enlarged by exactly the added cells, offset recovered from the grids. '
-              'One clause is proved FALSE of the code as it stands (restriction with explicit offset misplaces the range) '
-              'and proved for the repaired sign convention. N-d (per-axis loop with working slices, mixed grow/shrink) and '
-              'the operator wrapper are tied by exact in-Coq correspondence, and the N-d array is also checked to equal the '
-              'composition of the proved 1-d maps along the axes; the N-d lift itself is validated, not proved.')
+LEVEL_TEXT = ('Proof: for the slice arithmetic, legality guards, offset validation and range construction formulas '
+              'regenerated from odl/util/numerics.py and odl/discr/discr_ops.py on every run, Coq proves for EVERY input '
+              'length, output length (growing, shrinking, equal), offset, pad mode and all contents that the 1-d '
+              'resize_array (a) computes exactly the named rule as an index formula (constant, periodic wrap, symmetric '
+              'reflection without edge repeat, order0, order1), (b) rejects paddings outside the documented limits and '
+              'offsets outside 0..|delta|, (c) has an adjoint direction that is the exact transpose, (d) crop after '
+              'extend is the identity, (e) is linear for pad_const = 0; that the model executed at Q is the restriction '
+              'of the one proved at R; for N-d arrays of any number of axes (growing in some, shrinking in others) that '
+              'the composition of the 1-d maps in the code axis order satisfies (c) and (d) and that the axis order is '
+              'immaterial; and for the range built by ResizingOperator: unchanged cell sides, interval enlarged by exactly '
+              'the added cells (restriction: the sub-interval at the offset), offset recovered from the grids. The in-place '
+              'N-d statement sequence (working slices, corners) and the operator wrapper are tied by exact in-Coq '
+              'correspondence, which also checks in-place = separable on every case; that equality is validated, not proved.')
 LEVEL_NOTE = ('Trusted: the translator (fail-closed, small grammar), the hand-written Python-slice semantics / NumPy 1-d '
-              'broadcasting and statement sequences of _assign_intersection/_apply_padding/resize_array (validated by the '
-              'correspondence on all modes x directions x lengths 0..5 x 0..7 x all offsets incl. illegal ones), exact '
-              'arithmetic (rounding out of scope), dtype casting rules (np.can_cast is an input). Weighted adjoint identity '
-              'holds only for uniformly weighted spaces with equal constants: two recorded findings. Axioms: classical '
-              'reals as printed.')
+              'broadcasting and statement sequences of _apply_padding/resize_array (validated by the correspondence on all '
+              'modes x directions x lengths 0..5 x 0..7 x all offsets incl. illegal ones), exact arithmetic (rounding out '
+              'of scope), dtype casting rules (np.can_cast is an input). Weighted adjoint identity holds only for uniformly '
+              'weighted spaces with equal constants: two recorded open findings. Axioms: classical reals as printed.')
 TECHNIQUE = 'Coq proof by list induction over source-regenerated slice arithmetic + in-Coq differential correspondence'
